@@ -488,3 +488,26 @@ Theorem import_public_x_embed (key_err : ecode -> ierr) (junk : node -> node) (l
   /\ is_ok (snd (import_public_x key_err junk (embed_load l) root None)) = snd (import_public l root).
 Proof. exact (import_public_x_embed_lemma key_err junk l root). Qed.
 Print Assumptions import_public_x_embed.
+
+(* nothing is lost.  import_public_x_ledger true = the importers after DO90 with a ledger of what is still
+   allocated on return (the tree under *rootptr, and detached trees nobody points to = leaked): for every
+   parser result, content, fault and junk no detached tree is left - the partial tree a failed
+   _vnaproperty_yaml_import leaves in new_root has been released - and root / outcome are import_public_x's.
+   (The ledger is a two-field abstraction, not a heap: block-level leak freedom of the C code - and of
+   vnacal_load's parse_properties, which imports into the vnacal_t's own root - is TIED, not proved:
+   interposer count + LeakSanitizer on every failing document; that tie caught seeded C09-11.) *)
+Theorem import_failure_frees_partial_tree
+        (key_err : ecode -> ierr) (junk : node -> node) (l : xload) (root : node) (f : fault) :
+  l_lost (fst (import_public_x_ledger key_err junk true l root f)) = []
+  /\ (l_root (fst (import_public_x_ledger key_err junk true l root f)),
+      snd (import_public_x_ledger key_err junk true l root f)) = import_public_x key_err junk l root f.
+Proof. exact (import_failure_frees_partial_tree_lemma key_err junk l root f). Qed.
+Print Assumptions import_failure_frees_partial_tree.
+
+(* the same function without the release (what seeded C09-11 did to parse_properties) loses the partial tree *)
+Theorem model_variant_without_free_refuted :
+  exists l root f,
+    is_ok (snd (import_public_x_ledger key_err_DO91 (fun n => n) false l root f)) = false /\
+    l_lost (fst (import_public_x_ledger key_err_DO91 (fun n => n) false l root f)) <> [].
+Proof. exact model_variant_without_free_refuted_lemma. Qed.
+Print Assumptions model_variant_without_free_refuted.
